@@ -27,6 +27,26 @@ to `Valid`):
     through the real setup_config (restart branch incl. clean_data_file, both entry forms): it must raise
     TOMLConfigError exactly when the model (Infretis.Config.setupFile) does, return None exactly when the model
     does, and whatever it returns must be Valid (else C18:restart-route:<clause>).
+
+Extension pass (model Infretis/Model/ConfigInit.lean):
+  * every real initialisation is also compared with the Lean model of the whole start-up (`load` op =
+    Infretis.Config.startUp = setup_config ; setup_internal): md_items cap / interfaces / moves and the W matrix of the
+    state after load_paths, or the error kind raised on the way;
+  * direct predicates on the real state, independent of the model: every initial path's weight vector (path.weights,
+    traj_data, the rows of state.state — also after a restart through the real setup_internal) equals
+    `spec_weight_row` (scan-free wire-fencing weight over [λ_k, CONFIGURED cap), cap 0.0 / 0 / equal to an interface
+    included), `state.cap` and `md_items['cap']` are the configured value (C18:initial-weights[:state-matrix],
+    C18:state-cap-not-the-configured-cap, C18:restart-route:md_items-not-the-configuration);
+  * initial path families "over-cap" (L→R, R→R, R→L pieces around the cap) and "jump-over-fence" (valid by
+    check_interfaces, no frame inside a wire-fencing region: own weight 0 → AssertionError in add_traj; outside PathsOk,
+    compared with the model, recorded under PENDING_FINDINGS, not judged);
+  * the real create_engines (only create_engine stubbed) against Infretis.Config.engineOcc and the direct statement
+    min(count, workers) free slots per referenced engine (C18:engine-occupation);
+  * block H: setup_config(inp, re_inp) over input file × restart file × same path (215 cases) against
+    Infretis.Config.setupConfigFiles (file missing, two-file choice, restart branch, fresh [current], header, pattern);
+  * block T: values of another TOML type (ints for floats must behave identically; NaN / bool / float workers / strings
+    / nested lists / missing tables are judged by the same predicates read with Python's comparisons; what the unchanged
+    library gets wrong there is listed in PENDING_FINDINGS and written to evidence `pending_findings`).
 """
 from __future__ import annotations
 
@@ -389,7 +409,7 @@ class Real:
         handlers (setup_logger) are stubbed"""
         S = self.S
         old = (S.def_globals, S.setup_logger)
-        S.def_globals = engine_occ_of
+        S.def_globals = lambda config: real_engine_occ(config)[0]
         S.setup_logger = lambda *a, **k: None
         try:
             return S.setup_internal(cfg)
@@ -426,6 +446,11 @@ def mkpath(ops, pnum):
 
 
 FAMILIES = ("on-own", "inside", "on-higher", "on-cap", "to-last", "over-cap")
+# paths that are valid by Path.check_interfaces but have NO frame inside a wire-fencing region (one step from below
+# λ0 to beyond the last interface): outside `PathsOk` of Infretis.C18 wherever an ensemble is wire fencing; compared
+# with the model (Infretis.Config.startUp → AssertionError of add_traj), recorded, not judged (see PENDING_FINDINGS)
+JUMP = "jump-over-fence"
+PENDING_FINDINGS = {"C18:wf-initial-path-steps-over-fence"}
 BOUNDARY = ("on-own", "on-higher", "on-cap", "to-last")
 
 
@@ -464,6 +489,8 @@ def initial_orders(cfg, family="on-own"):
     else:
         minus = [float(l0), l0 - 0.5, float(l0)]
     out = [minus]
+    if family == JUMP:
+        return out + [[l0 - 1.0, intf[-1] + 0.5] for _ in range(n - 1)]
     for i in range(n - 1):
         li = intf[i]
         if family == "to-last":
@@ -614,6 +641,29 @@ def cv_line(cfg, ops):
     return f"cv {'-' if cap is None else d(cap)} {lst([d(x) for x in sim['interfaces']])} {lst(mv)} {lst([d(x) for x in ops])}"
 
 
+def doubled_case(c):
+    """the case with interfaces, cap and λ₋₁ doubled (half-integer order values become integers; every test of the
+    configuration only compares them, so the outcome is the same)"""
+    lm1 = c[4] if c[4] in ("A", "F") else 2 * c[4]
+    return Case((tuple(2 * x for x in c[0]), c[1], c[2], None if c[3] is None else 2 * c[3], lm1) + tuple(c[5:]))
+
+
+def load_line(c, orders):
+    """request for Infretis.Config.startUp (setup_config ; setup_internal): the paths' order values (doubled) first"""
+    d = lambda x: int(round(2 * x))  # noqa: E731
+    return f"load {len(orders)} " + " ".join(lst([d(x) for x in ops]) for ops in orders) + " " + to_line("x", doubled_case(c))[2:]
+
+
+def show_loaded(info):
+    """canonical form of what the real start-up holds after load_paths, as the driver's `load` op prints it"""
+    d = lambda x: int(round(2 * x))  # noqa: E731
+    md = info["md"]
+    cap = md["cap"]
+    rows = [[int(x) for x in r] for r in info["matrix"]]
+    return (f"ok cap={'-' if cap is None else d(cap)} intf={lst([d(x) for x in md['interfaces']])} "
+            f"moves={lst([1 if m == 'wf' else 0 for m in md['mc_moves']])} W={lst([lst(r) for r in rows])}")
+
+
 def initialise(cfg, family="on-own", info=None):
     """as setup_internal does: REPEX_state → initiate_ensembles → load_paths_from_disk (paths stored in the
     library's format) → load_paths (weights from the real calc_cv_vector) → first W picks.
@@ -642,6 +692,7 @@ def initialise(cfg, family="on-own", info=None):
         info["matrix"] = [[float(x) for x in r] for r in st.state.tolist()]
         info["traj_data_rows"] = [tuple(float(x) for x in st.traj_data[p.path_number]["weights"]) for p in paths[1:]]
         info["cap"] = st.cap
+        info["md"] = {"cap": st.cap, "interfaces": list(st.interfaces), "mc_moves": list(st.mc_moves)}
         info["have"] = True
         stage = "first-picks"
         st.engine_occ = engine_occ_of(cfg)
@@ -687,6 +738,43 @@ def store_paths(paths, load_dir="load"):
             f.write("#       time      orderparam\n")
             for k, s in enumerate(p.phasepoints):
                 f.write(f"{k:10d} {float(s.order[0]):15.4f}\n")
+
+
+def real_engine_occ(cfg):
+    """the real create_engines (counting, min(count, workers), check_engine) with only the construction of the MD
+    engine objects (create_engine) replaced by a stub → (engine_occ dict, engines dict)"""
+    import infretis.classes.engines.factory as F
+    old = F.create_engine
+    F.create_engine = lambda settings, eng_key="engine": ("stub-engine", eng_key)
+    try:
+        engines, occ = F.create_engines(cfg)
+    finally:
+        F.create_engine = old
+    return occ, engines
+
+
+def show_occ(occ):
+    return "ok " + " ".join([str(len(occ))] + [f"{hexs(k)} {len(v)}" for k, v in occ.items()])
+
+
+def occ_violations(cfg, occ, engines):
+    """direct statement: one list per engine name an ensemble refers to, min(number of ensembles naming it, workers)
+    slots (never negative), all free (-1), and as many engine objects"""
+    want = {}
+    for names in cfg["simulation"]["ensemble_engines"]:
+        for e in names:
+            want[e] = want.get(e, 0) + 1
+    w = cfg["runner"]["workers"]
+    bad = []
+    if list(occ.keys()) != list(want.keys()) or list(engines.keys()) != list(want.keys()):
+        return [f"engine names {list(occ.keys())} / {list(engines.keys())}, referenced {list(want.keys())}"]
+    for e, n in want.items():
+        k = max(0, min(n, w))
+        if list(occ[e]) != [-1] * k:
+            bad.append(f"occupation of '{e}' is {occ[e]}, expected {k} free slots (named by {n} ensembles, {w} workers)")
+        if len(engines[e]) != k:
+            bad.append(f"{len(engines[e])} instances of '{e}', expected {k}")
+    return bad
 
 
 def engine_occ_of(cfg):
@@ -814,6 +902,295 @@ def restart_line(c, variant):
     cstep, rfrom, steps, present = RESTART_VARIANTS[variant]
     return f"restart {cstep} {'-' if rfrom is None else rfrom} {steps} {1 if present else 0} " + to_line("x", c)[2:]
 
+
+
+# --------------------------------------------------------------------------- setup_config from its two files on
+def section_codes(d, table):
+    """(name, code) per top-level table: code 0 for the empty table, else a number that is equal iff the values are"""
+    import json
+    out = []
+    for k, v in d.items():
+        if v == {}:
+            out.append((k, 0))
+            continue
+        key = json.dumps(canon(v), sort_keys=True)
+        out.append((k, table.setdefault(key, len(table) + 1)))
+    return out
+
+
+def file_tokens(real, c, d, table, present=True):
+    """the driver's description of one TOML file built from case `c` (dict `d`)"""
+    if d is None:
+        return "-"
+    secs = section_codes(d, table)
+    cur = d.get("current")
+    if cur is None:
+        curs = "-"
+    else:
+        rf = cur.get("restarted_from")
+        curs = f"C {cur['cstep']} {'-' if rf is None else rf} {d['simulation']['steps']} {1 if present else 0}"
+    cfg = to_line("x", c)[2:].split(" ")
+    return (f"F {len(secs)} " + " ".join(f"{hexs(k)} {v}" for k, v in secs)
+            + f" {1 if d.get('output', {}).get('pattern') else 0} {curs} {len(cfg)} " + " ".join(cfg)).replace("  ", " ")
+
+
+def show_files_outcome(real, cfg_or_err, before_files):
+    """canonical form of what the real setup_config(inp, re_inp) returned, as the driver's `files` op prints it"""
+    if isinstance(cfg_or_err, str):
+        return cfg_or_err
+    cfg = cfg_or_err
+    if cfg is None:
+        return "none"
+    cur = cfg["current"]
+    rf = cur.get("restarted_from")
+    new_files = sorted(set(f for f in os.listdir(real.tmp) if f.startswith("infretis_data")) - before_files)
+    if rf is None:
+        fresh = f"{cur['traj_num']},{cur['cstep']},{cur['size']},{lst(list(cur['active']))}"
+    else:
+        fresh = "-"
+    return (f"ok {show_norm(cfg)} fresh={fresh} rf={'-' if rf is None else rf} header={1 if new_files else 0} "
+            f"pattern={1 if 'pattern_file' in cfg['output'] else 0}")
+
+
+def run_two_files(ctx, real):
+    """block H: setup_config(inp, re_inp) with every combination of (input file: missing / plain / with another
+    number of steps / with an extra empty table / with an extra non-empty table / pattern on) × (restart file: missing
+    / matching with [current] / other steps / extra table / finished / a path missing / without one of the input's
+    tables) × (same path or not), on a valid and on invalid configurations; model: Infretis.Config.setupConfigFiles"""
+    import tomli_w
+    bases = [mkcase((0, 2, 4), 1, (0, 0, 1), cap=3), mkcase((0, 2, 4), 2, (0, 1, 1), cap=0, lm1=-1),
+             mkcase((0, 2), 1, (0, 0), ee=(("x",), ("engine",))), mkcase((0, 2, 4), 3, (0, 0, 0)),
+             mkcase((-2, 0, 2, 4), 2, (0, 1, 0, 0), cap=0, lm1=-3, quantis=0, seed=0)]
+    lines, shown, objs = [], [], []
+    table = {}
+    for c in bases:
+        for iv in ("missing", "plain", "steps", "empty-table", "extra-table", "pattern"):
+            for rv in ("missing", "match", "steps", "extra-table", "finished", "path-missing", "lacks-table"):
+                for same in (False, True):
+                    if same and (iv != "plain" or rv == "missing"):
+                        continue
+                    if iv == "missing" and rv not in ("missing", "match"):
+                        continue
+                    variant = {"finished": "finished", "path-missing": "path-missing"}.get(rv, "go")
+                    if rv == "missing":
+                        d = to_dict(c, real.tmp)
+                    else:
+                        # the input file the restart file was written from (same tables, no [current])
+                        d = {k: v for k, v in restart_dict(real, c, variant).items() if k != "current"}
+                    d["output"]["data_dir"] = real.tmp
+                    if iv == "steps":
+                        d["simulation"]["steps"] = 11
+                    elif iv == "empty-table":
+                        d["notes"] = {}
+                    elif iv == "extra-table":
+                        d["notes"] = {"a": 1}
+                    elif iv == "pattern":
+                        d["output"]["pattern"] = True
+                    rd, present = None, True
+                    if rv != "missing":
+                        rd = restart_dict(real, c, variant)
+                        rd["output"]["data_dir"] = real.tmp
+                        if iv == "pattern":
+                            rd["output"]["pattern"] = True
+                        present = RESTART_VARIANTS[variant][3]
+                        if rv == "steps":
+                            rd["simulation"]["steps"] = 12
+                        elif rv == "extra-table":
+                            rd["notes2"] = {"b": 2}
+                        elif rv == "lacks-table":
+                            rd.pop("orderparameter")
+                    for f in ("h_inp.toml", "h_re.toml"):
+                        if os.path.exists(f):
+                            os.remove(f)
+                    if rd is not None:
+                        with open("h_re.toml", "wb") as f:
+                            tomli_w.dump(rd, f)
+                    if same:
+                        inp_name, d_used = "h_re.toml", rd
+                    else:
+                        inp_name, d_used = "h_inp.toml", (None if iv == "missing" else d)
+                        if d_used is not None:
+                            with open("h_inp.toml", "wb") as f:
+                                tomli_w.dump(d_used, f)
+                    before = set(f for f in os.listdir(real.tmp) if f.startswith("infretis_data"))
+                    try:
+                        res = real.S.setup_config(inp_name, "h_re.toml")
+                    except Exception as e:  # noqa: BLE001
+                        if type(e).__name__ == "Timeout":
+                            raise
+                        res = err_kind(e)
+                    try:
+                        out = show_files_outcome(real, res, before)
+                    except Exception as e:  # noqa: BLE001
+                        out = "malformed-config:" + err_kind(e)
+                    for f in set(f for f in os.listdir(real.tmp) if f.startswith("infretis_data")) - before:
+                        os.remove(os.path.join(real.tmp, f))
+                    obj = {"case": case_obj(c), "route": "two-files", "input_file": iv, "restart_file": rv, "same_path": same}
+                    ctx.count(1, branch="files:" + out.split(" ")[0])
+                    ctx.hit(f"files:{iv}/{rv}/{'same' if same else 'two'}:{out.split(' ')[0]}")
+                    # property: whatever comes back is valid; an invalid configuration never comes back
+                    if not isinstance(res, str) and res is not None:
+                        bad = safe_valid(res)
+                        if bad:
+                            fail_once(ctx, f"C18:two-files:{bad[0]}",
+                                      f"setup_config(input file, restart file) accepted a configuration violating: "
+                                      f"{', '.join(bad)}", dict(obj, violated=bad))
+                    lines.append("files " + ("1 " if same else "0 ")
+                                 + file_tokens(real, c, d_used, table, present) + " "
+                                 + (file_tokens(real, c, rd, table, present) if not same else "-"))
+                    shown.append(out)
+                    objs.append(obj)
+    if ctx._driver_ok:
+        for obj, line, code, m in zip(objs, lines, shown, safe_driver(ctx, lines)):
+            if code != m:
+                ctx.disagree({"fn": "setup_config(inp, re_inp) vs Infretis.Config.setupConfigFiles", "case": obj,
+                              "request": line}, code, m)
+    ctx.extra["two_file_cases"] = ctx.extra.get("two_file_cases", 0) + len(lines)
+
+
+# --------------------------------------------------------------------------- type confusion TOML allows
+TYPE_MODS = {
+    # name -> (modifier of the input dict, "same" = must behave exactly as the float configuration / "typed" = judged by
+    #          the same predicates read with Python's own comparisons)
+    "ints-for-floats": (lambda d: (d["simulation"].update(interfaces=[int(x) for x in d["simulation"]["interfaces"]]),
+                                   [d["simulation"]["tis_set"].update({k: int(v)}) for k, v in
+                                    list(d["simulation"]["tis_set"].items()) if k in ("interface_cap", "lambda_minus_one")
+                                    and isinstance(v, float)]), "same"),
+    "cap-false": (lambda d: d["simulation"]["tis_set"].update(interface_cap=False), "typed"),
+    "cap-true": (lambda d: d["simulation"]["tis_set"].update(interface_cap=True), "typed"),
+    "cap-nan": (lambda d: d["simulation"]["tis_set"].update(interface_cap=float("nan")), "typed"),
+    "lm1-true": (lambda d: d["simulation"]["tis_set"].update(lambda_minus_one=True), "typed"),
+    "lm1-nan": (lambda d: d["simulation"]["tis_set"].update(lambda_minus_one=float("nan")), "typed"),
+    "interfaces-nan-middle": (lambda d: d["simulation"]["interfaces"].__setitem__(1, float("nan")), "typed"),
+    "interfaces-nan-first": (lambda d: d["simulation"]["interfaces"].__setitem__(0, float("nan")), "typed"),
+    "interfaces-nan-last": (lambda d: d["simulation"]["interfaces"].__setitem__(-1, float("nan")), "typed"),
+    "interfaces-strings": (lambda d: d["simulation"].update(interfaces=[f"{k}" for k in range(len(d["simulation"]["interfaces"]))]), "typed"),
+    "interfaces-nested": (lambda d: d["simulation"].update(interfaces=[[x] for x in d["simulation"]["interfaces"]]), "typed"),
+    "interfaces-scalar": (lambda d: d["simulation"].update(interfaces=3.0), "typed"),
+    "workers-float-integral": (lambda d: d["runner"].update(workers=float(d["runner"]["workers"])), "typed"),
+    "workers-float": (lambda d: d["runner"].update(workers=d["runner"]["workers"] - 0.5), "typed"),
+    "workers-string": (lambda d: d["runner"].update(workers=str(d["runner"]["workers"])), "typed"),
+    "workers-true": (lambda d: d["runner"].update(workers=True), "typed"),
+    "workers-negative": (lambda d: d["runner"].update(workers=-1), "typed"),
+    "steps-float": (lambda d: d["simulation"].update(steps=10.0), "typed"),
+    "steps-negative": (lambda d: d["simulation"].update(steps=-1), "typed"),
+    "moves-string": (lambda d: d["simulation"].update(shooting_moves="sh" * len(d["simulation"]["shooting_moves"])), "typed"),
+    "moves-unknown": (lambda d: d["simulation"]["shooting_moves"].__setitem__(1, "xx"), "typed"),
+    "ensemble-engines-string": (lambda d: d["simulation"].update(ensemble_engines="engine"), "typed"),
+    "ensemble-engines-flat": (lambda d: d["simulation"].update(ensemble_engines=["engine"] * len(d["simulation"]["interfaces"])), "typed"),
+    "interfaces-inf-last": (lambda d: d["simulation"]["interfaces"].__setitem__(-1, float("inf")), "typed"),
+    "cap-negative-zero": (lambda d: d["simulation"]["tis_set"].update(interface_cap=-0.0), "typed"),
+    "no-tis_set": (lambda d: d["simulation"].pop("tis_set"), "typed"),
+    "no-runner": (lambda d: d.pop("runner"), "typed"),
+    "no-shooting_moves": (lambda d: d["simulation"].pop("shooting_moves"), "typed"),
+    "no-interfaces": (lambda d: d["simulation"].pop("interfaces"), "typed"),
+}
+# what the UNCHANGED library does with some of these (reported to the coordinator, not yet recorded as findings)
+PENDING_FINDINGS |= {
+    # NaN compares false with everything: sorted() leaves it where it is, no test fires
+    "C18:type:interfaces-nan-middle:accepted-invalid:interfaces-unsorted",
+    "C18:type:interfaces-nan-first:accepted-invalid:interfaces-unsorted",
+    "C18:type:interfaces-nan-last:accepted-invalid:interfaces-unsorted",
+    "C18:type:cap-nan:accepted-invalid:cap-outside-interfaces",
+    "C18:type:lm1-nan:accepted-invalid:lambda-minus-one-not-below-first",
+    # `interface_cap = false` is check_config's own "no cap" sentinel, but REPEX_state.cap / calc_cv_vector /
+    # wire_fencing read it as the number 0
+    "C18:type:cap-false:accepted-invalid:cap-below-wf-interface",
+    "C18:type:cap-false:accepted-invalid:cap-outside-interfaces",
+    "C18:type:cap-false:accepted-invalid:cap-zero-skipped",
+    # a float number of workers passes `n_workers > n_ens - 1` and fails at the first picks
+    "C18:type:workers-float-integral:accepted-but-init-fails:first-picks",
+    "C18:type:workers-float:accepted-but-init-fails:first-picks",
+}
+
+
+def pending_or_fail(ctx, sig, what, rep):
+    if sig in PENDING_FINDINGS:
+        ctx.hit("pending:" + sig)
+        pf = ctx.extra.setdefault("pending_findings", {})
+        if sig not in pf:
+            pf[sig] = {"what": what, "inputs_this_run": 0, "smallest": rep}
+        pf[sig]["inputs_this_run"] += 1
+    else:
+        fail_once(ctx, sig, what, rep)
+
+
+def run_type_confusion(ctx, real, lcases):
+    """block T: values of another TOML type in the validated fields (ints for floats, floats / strings / bools for
+    integers, NaN and inf, strings and nested lists for interfaces, missing tables).  Ints for floats must behave
+    exactly like the float configuration (judged and compared with the model like every other case); the rest is
+    outside the Lean model (Int-valued): judged by `typed_violations` and the real initialisation only."""
+    bases = [mkcase((0, 2, 4), 2, (0, 0, 1), cap=3, lm1=-1), mkcase((-2, 0, 2, 4), 1, (0, 1, 0, 0), cap=0, lm1=-3),
+             mkcase((0, 2), 1, (0, 0))]
+    n = 0
+    for c in bases:
+        ref_code, ref_cfg = real.setup(to_dict(c, real.tmp))
+        for name, (modify, expect) in TYPE_MODS.items():
+            d = to_dict(c, real.tmp)
+            try:
+                modify(d)
+            except Exception:  # noqa: BLE001  (a key the base case does not have)
+                continue
+            rep = {"case": case_obj(c), "route": "type-confusion", "modification": name}
+            try:
+                code, cfg = real.setup(d, "typed.toml")
+            except Exception as e:  # noqa: BLE001
+                if type(e).__name__ == "Timeout":
+                    raise
+                ctx.hit(f"type:{name}:not-writable-as-toml:{type(e).__name__}")
+                continue
+            n += 1
+            outcome = code.split(" ")[0].split(":")[0] if code.startswith("malformed") else code.split(" ")[0]
+            ctx.count(1, branch=f"type:{expect}:{outcome}")
+            ctx.hit(f"type:{name}:{outcome}")
+            if expect == "same":
+                if code != ref_code:
+                    fail_once(ctx, f"C18:type:{name}:differs-from-float-configuration",
+                              f"with integers for floats setup_config gives {code}, with floats {ref_code}", rep)
+                elif cfg is not None:
+                    judge(ctx, real, c, code, cfg, True, False, ("to-last",), None, None, None, None)
+                continue
+            # every other value: the same predicates as for the float configurations, read with Python's own
+            # comparisons (a bool is the number 0/1, NaN compares false)
+            if code.startswith("malformed"):
+                cfg = None
+                try:
+                    cfg = real.S.setup_config("typed.toml", "no-restart-file.toml")
+                except Exception:  # noqa: BLE001
+                    cfg = None
+                finally:
+                    real.clean()
+            if cfg is not None:
+                bad = safe_valid(cfg)
+                if bad:
+                    pending_or_fail(ctx, f"C18:type:{name}:accepted-invalid:{bad[0]}",
+                                    f"setup_config accepts the configuration with {name}, which violates: {', '.join(bad)}",
+                                    dict(rep, violated=bad))
+                    continue
+                try:
+                    orders = initial_orders(cfg, "on-own")
+                    buildable = all(isinstance(x, (int, float)) and not isinstance(x, bool)
+                                    for x in cfg["simulation"]["interfaces"]) and all(isinstance(x, float) and x == x and abs(x) != float("inf") for o in orders for x in o)
+                except Exception:  # noqa: BLE001
+                    buildable = False
+                if not buildable:
+                    ctx.hit(f"type:{name}:accepted:no-test-paths-for-such-interfaces")
+                    continue
+                stage, ferr, _, _, _ = initialise(copy.deepcopy(cfg), "on-own")
+                if ferr is not None:
+                    pending_or_fail(ctx, f"C18:type:{name}:accepted-but-init-fails:{stage}",
+                                    f"setup_config accepts the configuration with {name} (no listed clause violated) and "
+                                    f"{stage} raises {ferr}", dict(rep, stage=stage, error=ferr))
+                continue
+            try:
+                bad = py_valid(py_normalised(d))
+            except Exception:  # noqa: BLE001  (values that cannot be compared: outside the property's list)
+                bad = []
+            if bad and code != "err:config":
+                pending_or_fail(ctx, f"C18:type:{name}:invalid-rejected-with-{code.replace('err:', '')}-error:{bad[0]}",
+                                f"the configuration with {name} ({', '.join(bad)}) is rejected with {code}, not "
+                                "TOMLConfigError", dict(rep, violated=bad, code=code))
+    ctx.extra["type_confusion_cases"] = ctx.extra.get("type_confusion_cases", 0) + n
 
 # --------------------------------------------------------------------------- generators
 def seqs(alphabet, lo, hi):
@@ -985,7 +1362,8 @@ def safe_valid(cfg):
         return ["malformed-config:" + err_kind(e)]
 
 
-def judge(ctx, real, c, code_setup, cfg, do_init, do_restart, families=(), wcases=None, d_in=None, icases=None):
+def judge(ctx, real, c, code_setup, cfg, do_init, do_restart, families=(), wcases=None, d_in=None, icases=None,
+          lcases=None, ocases=None):
     """property predicate on the real outcome of one case; returns the branch name"""
     obj = case_obj(c)
     if code_setup.startswith("malformed-config"):
@@ -1005,6 +1383,23 @@ def judge(ctx, real, c, code_setup, cfg, do_init, do_restart, families=(), wcase
             hole = next((b for b in ("cap-zero-skipped", "cap-below-wf-interface") if b in bad), bad[0])
             fail_once(ctx, f"C18:{hole}", f"setup_config accepted a configuration violating: {', '.join(bad)}",
                      {"case": obj, "violated": bad, "expect": "rejected with TOMLConfigError"})
+        if do_init and not bad:
+            # the engine occupation lists the real create_engines builds for this configuration
+            try:
+                occ, engines = real_engine_occ(copy.deepcopy(cfg))
+                shown_o = show_occ(occ)
+                obad = occ_violations(cfg, occ, engines)
+                if not obad and {k: list(v) for k, v in occ.items()} != engine_occ_of(cfg):
+                    obad = ["differs from the occupation lists the harness hands to the first picks"]
+            except Exception as e:  # noqa: BLE001
+                if type(e).__name__ == "Timeout":
+                    raise
+                shown_o, obad = err_kind(e), [f"create_engines raises {err_kind(e)}"]
+            if obad:
+                fail_once(ctx, "C18:engine-occupation",
+                          f"create_engines on an accepted configuration: {obad[0]}", {"case": obj, "violations": obad[:5]})
+            if ocases is not None:
+                ocases.append((obj, to_line("occ", c), shown_o))
         if do_init:
             fams = ["on-own"] + [f for f in (families or ()) if f != "on-own"]
             st = None
@@ -1017,6 +1412,41 @@ def judge(ctx, real, c, code_setup, cfg, do_init, do_restart, families=(), wcase
                     st, err = fst, ferr
                 if bad:
                     continue
+                # model of the whole start-up (setup_config ; setup_internal) against what the real state holds
+                # after load_paths — or the error raised on the way there
+                if lcases is not None and orders is not None:
+                    try:
+                        if info.get("have"):
+                            shown_l = show_loaded(info)
+                        else:
+                            shown_l = ferr if stage in ("REPEX_state", "initiate_ensembles", "load_paths") else None
+                        if shown_l is not None:
+                            lcases.append((obj, fam, load_line(c, orders), shown_l))
+                    except Exception as e:  # noqa: BLE001
+                        if type(e).__name__ == "Timeout":
+                            raise
+                        lcases.append((obj, fam, load_line(c, orders), "state unreadable: " + err_kind(e)))
+                if fam == JUMP:
+                    # a path with no frame inside a wire-fencing region [λ_k, right end): demanded own weight 0, not a
+                    # valid initial path in the sense of PathsOk; what the code does with it is compared with the model
+                    # and recorded, not judged.  Where no own weight is 0 (shooting only) it is judged like the rest.
+                    try:
+                        zero_own = [k for k in range(len(orders) - 1)
+                                    if spec_weight_row(cfg, orders[k + 1])[k] == 0.0]
+                    except Exception:  # noqa: BLE001
+                        zero_own = []
+                    if zero_own:
+                        sig = "C18:wf-initial-path-steps-over-fence"
+                        outcome = f"{stage}{':' + ferr if ferr else ''}"
+                        ctx.hit(f"pending:{sig}:{outcome}")
+                        pf = ctx.extra.setdefault("pending_findings", {})
+                        if sig not in pf:
+                            pf[sig] = {"what": "accepted configuration, initial path valid by Path.check_interfaces that "
+                                               "steps over the whole wire-fencing region: wire-fencing own weight 0, "
+                                               f"outcome {outcome}", "inputs_this_run": 0,
+                                       "smallest": {"case": obj, "orders": orders, "ensembles_with_own_weight_0": zero_own}}
+                        pf[sig]["inputs_this_run"] += 1
+                        continue
                 if fst is not None and stage not in ("REPEX_state", "initiate_ensembles"):
                     ebad = None
                     try:
@@ -1247,6 +1677,8 @@ def _run(ctx, real):
     init_budget = 8000 if ctx.quick else 40000
     restart_budget = 150 if ctx.quick else 1500
     icases = []
+    lcases = []
+    ocases = []
     model_rows = {}
     if have_model:
         for k in range(len(cases)):
@@ -1303,8 +1735,10 @@ def _run(ctx, real):
         if do_init:
             st_["n_init"] += 1
         fams = FAMILIES if (not ctx.quick or k < len(WITNESSES)) else (FAMILIES[1 + st_["n_init"] % (len(FAMILIES) - 1)],)
+        if cfg is not None and (not ctx.quick or st_["n_init"] % 4 == 0 or k < len(WITNESSES)):
+            fams = tuple(fams) + (JUMP,)
         branch = judge(ctx, real, c, code_setup, cfg, do_init, do_restart, fams, wcases, d,
-                       None if nomodel else icases)
+                       None if nomodel else icases, None if nomodel else lcases, None if nomodel else ocases)
         if do_restart and cfg is not None:
             st_["n_restart"] += 1
         # ---- the same case through the restart route: every class at least `per_class` times, and a fixed
@@ -1342,6 +1776,17 @@ def _run(ctx, real):
                       f"evaluating this case raised {type(e).__name__}: {e} (at {where.name}:{where.lineno})",
                       {"case": case_obj(c)})
     n_init, n_restart = st_["n_init"], st_["n_restart"]
+    try:
+        run_type_confusion(ctx, real, lcases)
+        run_two_files(ctx, real)
+    except Exception as e:  # noqa: BLE001
+        if type(e).__name__ == "Timeout":
+            raise
+        import traceback
+        where = traceback.extract_tb(e.__traceback__)[-1]
+        fail_once(ctx, f"C18:unexpected-exception:{type(e).__name__}",
+                  f"the two-file block raised {type(e).__name__}: {e} (at {where.name}:{where.lineno})",
+                  {"case": case_obj(cases[0]), "route": "two-files"})
     if have_model and rcases:
         rout = safe_driver(ctx, [restart_line(cases[k], variant) for (k, variant, _, _) in rcases])
         for (k, variant, two_files, rcode), m in zip(rcases, rout):
@@ -1354,6 +1799,20 @@ def _run(ctx, real):
             if shown != m:
                 ctx.disagree({"fn": "initiate_ensembles vs Infretis.Config.initEnsembles", "case": obj}, shown, m)
     ctx.extra["ensemble_tables_compared"] = ctx.extra.get("ensemble_tables_compared", 0) + len(icases)
+    if have_model and lcases:
+        lout = safe_driver(ctx, [line for (_, _, line, _) in lcases])
+        for (obj, fam, line, shown), m in zip(lcases, lout):
+            if shown != m:
+                ctx.disagree({"fn": "setup_config ; setup_internal (state after load_paths, md_items) vs "
+                                    "Infretis.Config.startUp", "case": obj, "initial_paths": fam, "request": line},
+                             shown, m)
+    if have_model and ocases:
+        oout = safe_driver(ctx, [line for (_, line, _) in ocases])
+        for (obj, line, shown), m in zip(ocases, oout):
+            if shown != m:
+                ctx.disagree({"fn": "create_engines (engine occupation) vs Infretis.Config.engineOcc", "case": obj}, shown, m)
+    ctx.extra["engine_occupations_compared"] = ctx.extra.get("engine_occupations_compared", 0) + len(ocases)
+    ctx.extra["start_ups_compared"] = ctx.extra.get("start_ups_compared", 0) + len(lcases)
     if have_model and wcases:
         wout = safe_driver(ctx, [line for (_, _, _, line, _) in wcases])
         for (obj, fam, i, line, w), m in zip(wcases, wout):
